@@ -380,3 +380,37 @@ SPECS["C02"] = dict(
     level_text="bounded component obligations on the receiving side of remote events/anti-messages (anti-message before, after, or without its event); the end-to-end statement is not encoded",
     queries=[P_EARLY] + P_RANTI + [P_L4],
 )
+
+FN_NAMES = {0: "Random", 1: "RandomRange", 2: "RandomRangeNonUniform", 3: "Poisson", 4: "Normal", 5: "Gamma", 7: "RandomU64"}
+
+
+def c09(name, fn, tier="quick", seedk=None, timeout=900):
+    d = {"FN": fn}
+    if fn == 4:
+        d["NOVAL"] = None  # value equality of Normal() is not decided (FP chain); the generator advance is
+    if seedk is not None:
+        d["SEEDK"] = seedk
+    return Q(name, "c09_repeat.c", tier=tier, func="harness_replay", defs=d, unwind=8 if seedk is not None else 2,
+             unwindset={} if seedk is not None else {"harness_replay.0": 5, "Gamma.0": 4},
+             spin_loops=["Normal.0", "Gamma.1", "Gamma.2"], native=False, timeout=timeout,
+             bounds="%s(): draw, speculative continuation, a draw by another LP, rollback of the generator, draw again; %s" % (
+                 FN_NAMES[fn], "all 2^256 generator states of both LPs" if seedk is None else "concrete generator states (variant %d), libm uninterpreted" % seedk))
+
+
+SPECS["C09"] = dict(
+    level="model_checking",
+    encodes=["lib/random/random.c:random_lib_lp_init", "Random", "RandomU64", "RandomRange", "RandomRangeNonUniform", "Poisson", "Normal", "Gamma", "lib/random/xxtea.c:xxtea_encode"],
+    assumptions=["libm log/exp/pow/sqrt are uninterpreted (deterministic) functions in the replay queries",
+                 "Normal(): only the generator advance is compared after the rollback (equality of the returned value through log/sqrt/multiply is not decided by any back end)", "Normal() and Gamma() replay queries use concrete generator states (symbolic states: no verdict on any back end); a hidden state outside the generator does not depend on the values drawn",
+                 "the generator context lives in rollbackable memory: lp_init/serial init allocate it with rs_malloc (checked in C14's lifecycle query: the generator is seeded in the LP's own memory) and C05 restores every live block",
+                 "outcome independence from thread count / checkpoint interval / GVT values rests on C01's lemmas (all of these are arbitrary there)"],
+    outside=["Zipf() replay (no verdict)", "core binding", "more than one rank", "the floating-point internals of the automatic checkpoint interval"],
+    level_text="seeding is a function of (seed, LP id) for all 2^128 pairs under arbitrary placement globals; every library draw replays after a rollback whatever other LPs did in between (symbolic generator states for the integer/one-multiply functions, concrete states for Normal/Gamma)",
+    queries=[
+        Q("seed_function_of_seed_and_lp", "c09_repeat.c", func="harness_seed", unwind=40, solver="z3", native=False, timeout=600,
+          bounds="all 2^64 seeds x all 2^64 LP ids, two arbitrary different settings of every placement/configuration global"),
+        c09("replay_random", 0), c09("replay_u64", 7), c09("replay_range", 1), c09("replay_range_nu", 2), c09("replay_poisson", 3),
+        c09("replay_normal_k1", 4, seedk=1), c09("replay_normal_k2", 4, seedk=5), c09("replay_gamma_k1", 5, seedk=1),
+        c09("replay_normal_k3", 4, tier="thorough", seedk=11), c09("replay_gamma_k2", 5, tier="thorough", seedk=7),
+    ],
+)
